@@ -772,8 +772,7 @@ fn small_datasets() -> &'static Vec<(Vec<Vec<f64>>, Vec<f64>)> {
     })
 }
 
-/// exhaustive small schedules: every (initialize order, epoch order) pair for n <= 4, and for
-/// n = 5 every order for initialize combined with a rotating epoch order
+/// exhaustive small schedules: every (initialize order, epoch order) pair for n = 3, 4, 5
 fn exhaustive_small() -> &'static Vec<(usize, Vec<Word>)> {
     static S: OnceLock<Vec<(usize, Vec<Word>)>> = OnceLock::new();
     S.get_or_init(|| {
@@ -784,18 +783,10 @@ fn exhaustive_small() -> &'static Vec<(usize, Vec<Word>)> {
             let f = factorial(n);
             for a in 0..f {
                 let pa = words_for_permutation(&nth_permutation(n, a));
-                if n <= 4 {
-                    for b in 0..f {
-                        let mut w = pa.clone();
-                        w.extend(words_for_permutation(&nth_permutation(n, b)));
-                        out.push((di, w));
-                    }
-                } else {
-                    for b in [a, (a * 7 + 3) % f, f - 1 - a] {
-                        let mut w = pa.clone();
-                        w.extend(words_for_permutation(&nth_permutation(n, b)));
-                        out.push((di, w));
-                    }
+                for b in 0..f {
+                    let mut w = pa.clone();
+                    w.extend(words_for_permutation(&nth_permutation(n, b)));
+                    out.push((di, w));
                 }
             }
         }
@@ -928,7 +919,7 @@ impl Property for C10 {
     fn batches(&self, tier: Tier) -> Vec<Batch> {
         let q = tier == Tier::Quick;
         vec![
-            Batch { name: "svc-exhaustive-small", count: exhaustive_small().len() as u64, simulated: true, exhaustive: true, note: "n=3,4: every (initialize order, epoch order) pair; n=5: every initialize order x 3 epoch orders; 3 data sets per n (separable, overlapping, conflicting duplicate); epoch=1" },
+            Batch { name: "svc-exhaustive-small", count: exhaustive_small().len() as u64, simulated: true, exhaustive: true, note: "n=3,4,5: every (initialize order, epoch order) pair = (n!)^2 schedules; 3 data sets per n (separable, overlapping, conflicting duplicate); epoch=1" },
             Batch { name: "svc-prng", count: if q { 48_000 } else { 3_000_000 }, simulated: true, exhaustive: false, note: "visiting orders from the seeded PRNG tape; four kernels; C 0.1..100; 1..4 epochs" },
             Batch { name: "svc-extreme", count: if q { 16_000 } else { 800_000 }, simulated: true, exhaustive: false, note: "extreme words injected at random draw sites of the shuffles" },
             Batch { name: "svc-forced", count: if q { 16_000 } else { 800_000 }, simulated: true, exhaustive: false, note: "forced identity / reverse / one-class-first / rotated orders for every pass" },
